@@ -147,7 +147,7 @@ package iobroker
 // proxyOut: forwarding loop.
 //@ func Broker.proxyOut(b, ctx, sl, r) (err)
 //@   locals b ctx sl r outRet o err och buf n err err o ok
-//@   props C03 C11 C04
+//@   props C03 C11 C04 C19
 //@   ghost have bool = false
 //@   ghost cur string = ""
 //@   ghost dropped bool = false
@@ -166,7 +166,7 @@ package iobroker
 
 // proxyOut's reader goroutine.
 //@ func Broker.proxyOut#1()
-//@   props C03 C04 C11
+//@   props C03 C04 C11 C19
 //@   ghost lastN int = 0
 //@   ghost lastErr error = nil
 //@   ghost sentData bool = false
